@@ -101,6 +101,11 @@ func loaderScenarios() []scenario {
 	ss = append(ss, scenario{Name: "load-diamond-print", Files: map[string]string{"root.knut": "include \"a.knut\"\ninclude \"b.knut\"\n" + root,
 		"a.knut": "include \"c.knut\"\n" + a, "b.knut": "include \"c.knut\"\n" + b, "c.knut": trxAt("2020-02-01", "in c")},
 		Args: []string{"print", "root.knut"}, Census: append(append([]string(nil), census...), `"in c"`)})
+	// b and c include each other and are both included from the root: whichever of them is
+	// loaded first, the cycle has to be reported
+	ss = append(ss, scenario{Name: "load-cycle-between-siblings", Files: map[string]string{"root.knut": "include \"a.knut\"\ninclude \"b.knut\"\n" + root,
+		"a.knut": "include \"b.knut\"\n" + a, "b.knut": "include \"a.knut\"\n" + b},
+		Args: []string{"check", "root.knut"}, WantErr: []string{"include cycle"}})
 	// accrual transactions in two included files (expanded by the per-file conversion goroutines)
 	acr := func(desc string) string {
 		return jr.Dir{Kind: jr.Trx, Date: "2020-01-30", Desc: desc, Books: []jr.Booking{jr.B(accChecking, accRent, "90", "CHF")},
